@@ -67,6 +67,7 @@ def run(P, rep, tier):
     rep.attempt(r3_subclass, P, rep, ctx)
     rep.attempt(r4_magic_parse, P, rep, ctx)
     rep.attempt(r5_payload_hash, P, rep, ctx)
+    rep.attempt(r6_fresh_container_uuid, P, rep, ctx)
     rep.floor("C04.R1", 12)
     rep.floor("C04.R2", 8)
     rep.floor("C04.R3", 6)
@@ -285,6 +286,27 @@ def r3_subclass(P, rep, ctx):
     load_after = f.calls(f"IH5Manifest.parse_file({mv})")
     loads_any = f.calls("IH5Manifest.parse_file(___)", "IH5Manifest.parse_raw(___)", "IH5Manifest.parse_obj(___)")
     rep.check(bool(load_after) and set(loads_any) <= set(load_after) and bool(differs_true) and f.all_hit_before(load_after, edges=f.neg(differs_true)), "C04.R3", fi.qual, "the manifest is parsed only after its hash was verified (and it is the verified file that is parsed)", fi.loc(), construct="parse after verify", message="the manifest is parsed before its hash is verified")
+
+
+def r6_fresh_container_uuid(P, rep, ctx):
+    """The chain checks tell containers apart by `patch_uuid` (successor link `prev_patch`, the distinct-uuid test): a forked or
+    foreign container is only recognised if every container ever created gets an id of its own.  The id is freshly drawn
+    (uuid1 / uuid4), never computed from data that two containers can share (record uuid, index, name, content)."""
+    fi = P.func("ih5.record.IH5UserBlock.create")
+    f = F(ctx, fi)
+    n = 0
+    for c in local_calls(fi.node):
+        if not (isinstance(c.func, ast.Name) and c.func.id == "cls"):
+            continue
+        for k in c.keywords:
+            if k.arg == "patch_uuid":
+                n += 1
+                site = node_of(f.g, c)
+                v = f.xe_at(site, k.value) if site is not None else k.value
+                ok = isinstance(v, ast.Call) and norm(v.func) in ("uuid1", "uuid4", "uuid.uuid1", "uuid.uuid4") and not v.args and not v.keywords
+                rep.check(ok, "C04.R6", fi.qual, "every new container gets a freshly drawn patch_uuid", fi.loc(c), construct=f"patch_uuid = {norm(v)[:60]}",
+                          message=f"IH5UserBlock.create sets patch_uuid = `{norm(v)[:80]}`: an id computed from shared data is the same for the containers of a fork (two different patches written on top of the same state), so a file set mixing both branches passes the predecessor-link and distinct-uuid checks")
+    rep.check(n >= 1, "C04.R6", fi.qual, "patch_uuid assignment found", fi.loc(), construct="patch_uuid in create", message="IH5UserBlock.create no longer passes patch_uuid to the constructor: rule has nothing to check")
 
 
 def r4_magic_parse(P, rep, ctx):
